@@ -273,8 +273,11 @@ class Interp:
         it, otherwise it is a safety obligation."""
         if isinstance(ok_cond, bool) and ok_cond:
             return
-        if self.V.in_contract_expr:
-            return  # spec expressions are total: out-of-range selects are unspecified values
+        if self.V.in_contract_expr or getattr(self, "pure_eval", 0):
+            # spec expressions are total: out-of-range selects are unspecified values; the same holds for the element expressions of a
+            # comprehension over a list of unknown length, which are evaluated once for a symbolic index (no path split on the bound
+            # variable; exceptions raised inside such element expressions are not checked - stated in DESIGN 13.1)
+            return
         if exc == "AssertionError" and self.is_env_bool(ok_cond):
             # an assertion about the uninterpreted environment: may fail like any havoc call may raise
             if self.ctx.branch(ok_cond):
@@ -314,6 +317,9 @@ class Interp:
         fr = self.frame
         if self.V.in_contract_expr and name in self.V.contract_globals(fr.qual):
             return self.V.global_value(self, name)
+        ov = self.V.c.ghost.get("names")
+        if ov and name in ov:
+            return ov[name](self)  # an imported sentinel / constant the sidecar gives a value (e.g. dataclasses.MISSING)
         m = fr.module
         if m is not None:
             v = self.module_name(m, name)
@@ -483,8 +489,14 @@ class Interp:
     def e_BoolOp(self, n, env):
         # value semantics (returns an operand), with short circuit by branching
         is_and = isinstance(n.op, ast.And)
-        if self.V.in_contract_expr:
-            ts = [self.zbool(self.eval(v, env)) for v in n.values]
+        if self.V.in_contract_expr or getattr(self, "pure_eval", 0):
+            if self.V.in_contract_expr:
+                ts = [self.zbool(self.eval(v, env)) for v in n.values]
+            else:  # program text: operands are arbitrary values, used for their truth value
+                ts = []
+                for v in n.values:
+                    t = self.truth(self.eval(v, env))
+                    ts.append(z3.BoolVal(t) if isinstance(t, bool) else t)
             return SV(z3.simplify(z3.And(ts) if is_and else z3.Or(ts)), BOOL)
         v = None
         for i, e in enumerate(n.values):
@@ -899,6 +911,8 @@ class Interp:
         if not is_sym(base) and not any(is_sym(x) for x in (lo, hi, st)):
             if isinstance(base, PyList):
                 return PyList(base.items[lo:hi:st])
+            if isinstance(base, Opaque):
+                return Opaque(f"{base.what}[slice]")  # a slice of an unknown value is an unknown value
             return base[lo:hi:st]
         l = self.to_slist(base)
         if st is not None:
@@ -1164,8 +1178,12 @@ class Interp:
         j = z3.Int(self.ctx.fresh_name("sc"))
         e2 = Env(env)
         e2.set(g.target.id, list_get(self.ctx, lst, j))
-        conds = [self.zbool(self.eval(c, e2)) for c in g.ifs]
-        v = self.eval(n.elt, e2)
+        self.pure_eval = getattr(self, "pure_eval", 0) + 1
+        try:
+            conds = [self.zbool(self.truth(self.eval(c, e2))) for c in g.ifs]
+            v = self.eval(n.elt, e2)
+        finally:
+            self.pure_eval -= 1
         if isinstance(v, SV):
             ety = v.ty
         elif isinstance(v, str):
@@ -1178,7 +1196,53 @@ class Interp:
         body = z3.Exists([j], z3.And(0 <= j, j < lst.nz(), *conds, pack(self.ctx, v, ety) == x))
         return SSet(z3.Lambda([x], body), ety)
 
+    def symbolic_dict_comp(self, n, env):
+        """{k(x): v(x) for x in xs if c(x)} over a list of unknown length: a dictionary d with
+             forall j. c(xs[j]) => k(xs[j]) in d and d[k(xs[j])] == v(xs[j]);   forall key in d. exists j. c(xs[j]) and key == k(xs[j])
+        exact when the keys of the qualifying elements are pairwise different - emitted as a safety obligation (otherwise the last one wins)."""
+        if len(n.generators) != 1 or self.V.extern_pattern(self, n, env) is not _MISSING:
+            return _MISSING
+        g = n.generators[0]
+        if not isinstance(g.target, ast.Name):
+            return _MISSING
+        try:
+            lst = self.eval(g.iter, env)
+        except Unsupported:
+            return _MISSING
+        if not (isinstance(lst, SList) and not isinstance(lst.n, int)):
+            return _MISSING
+
+        def at(j):
+            e2 = Env(env)
+            e2.set(g.target.id, list_get(self.ctx, lst, j))
+            self.pure_eval = getattr(self, "pure_eval", 0) + 1
+            try:
+                conds = [self.zbool(self.truth(self.eval(c, e2))) for c in g.ifs]
+                return z3.And(0 <= j, j < lst.nz(), *conds), self.eval(n.key, e2), self.eval(n.value, e2)
+            finally:
+                self.pure_eval -= 1
+
+        j, j2 = z3.Int(self.ctx.fresh_name("dc")), z3.Int(self.ctx.fresh_name("dc2"))
+        c1, k1, v1 = at(j)
+        c2, k2, _ = at(j2)
+        kty = k1.ty if isinstance(k1, SV) else (STR if isinstance(k1, str) else None)
+        vty = v1.ty if isinstance(v1, SV) else (v1.rec if isinstance(v1, Obj) and v1.rec is not None else None)
+        if kty is None or vty is None:
+            return _MISSING
+        d = fresh_value(self.ctx, DictT(kty, vty), "dictcomp")
+        pk1, pk2 = pack(self.ctx, k1, kty), pack(self.ctx, k2, kty)
+        self.oblige("safety", "dict-comprehension-keys-are-distinct", z3.ForAll([j, j2], z3.Implies(z3.And(c1, c2, j != j2), pk1 != pk2)))
+        self.ctx.assume(z3.ForAll([j], z3.Implies(c1, z3.And(z3.Select(d.dom, pk1), z3.Select(d.map, pk1) == pack(self.ctx, v1, vty)))))
+        key = z3.Const(self.ctx.fresh_name("dk"), sort_of(kty))
+        pos = z3.Function(self.ctx.fresh_name("dcpos"), sort_of(kty), z3.IntSort())
+        cp, kp, _ = at(pos(key))
+        self.ctx.assume(z3.ForAll([key], z3.Implies(z3.Select(d.dom, key), z3.And(cp, pack(self.ctx, kp, kty) == key))))
+        return d
+
     def e_DictComp(self, n, env):
+        r = self.symbolic_dict_comp(n, env)
+        if r is not _MISSING:
+            return r
         r = self.comp_values(n, env, lambda e: (self.eval(n.key, e), self.eval(n.value, e)))
         if isinstance(r, list):
             return PyDict({self.hashable(k): v for k, v in r})
